@@ -110,7 +110,9 @@ impl ProcfsHandle {
 //@prove procfs.ProcfsHandle.open_follow u14
 //@prove procfs.ProcfsHandle.try_from_fd
 //@prove procfs.ProcfsHandle.new_fsopen
+//@use procfs.ProcfsHandle.new_fsopen attempt as=new_fsopen_attempt
 //@prove procfs.ProcfsHandle.new_open_tree
+//@use procfs.ProcfsHandle.new_open_tree attempt as=new_open_tree_attempt
 //@prove procfs.ProcfsHandle.new_unsafe_open
 //@prove procfs.ProcfsHandle.new
 //@prove procfs.ProcfsHandle.new_unmasked
